@@ -194,6 +194,34 @@ def string_dispatch_rule(ctx, w, rule):
                           f"value by one entry point and parsed into the dedicated variant by the other")
 
 
+def wire_kind_rule(ctx, w, rule):
+    """VoipVersionId is written as the JSON integer 0 for V0 and as a string for everything else, and read back by kind (visit_u64 / visit_str). The
+    string table behind From<&str> / visit_str must therefore not produce a variant that is written as an integer: `"version": "0"` would come back as
+    `"version": 0` - a present value changed by one typed round trip."""
+    ctx.rule(rule, "VoipVersionId: no string is mapped (From<&str> / visit_str) to a variant that Serialize writes as an integer")
+    VV = "ruma_common::identifiers::voip_version_id::"
+    ff = [k for k in w.fn_index if k == VV + "from"]
+    fs = [k for k in w.fn_index if k == f"<{VV}VoipVersionId as serde_core::ser::Serialize>::serialize"]
+    if not ff or not fs:
+        ctx.missing(rule, f"{rule}:VoipVersionId", "string table or Serialize of VoipVersionId not found")
+        return
+    table, odd = _literal_table(w, w.fn(ff[0]), [D.sym("s")])
+    dex = D.Dex(w.lookup, adt_discr=w.adt_discr, inline=lambda n: False, ctors=w.ctors, effects=lambda n: "serialize_" in n.rsplit("::", 1)[-1])
+    as_int = set()
+    n_paths = 0
+    for p in dex.paths(w.fn(fs[0]), [D.sym("self"), D.sym("ser")]):
+        n_paths += 1
+        v = [a[2] for a, t in p.conds if a[0] == "variant" and t and D.show(a[1]).lstrip("*&") in ("self", "(self)")]
+        if v and any(e[0].rsplit("::", 1)[-1] in ("serialize_u64", "serialize_i64", "serialize_u32", "serialize_u8", "serialize_i32") for e in p.effects):
+            as_int.add(v[0])
+    ctx.floor("paths of VoipVersionId::serialize", n_paths, 2)
+    clash = {l: v for l, v in table.items() if v in as_int}
+    ctx.check(bool(as_int) and not clash and not odd, rule, f"{rule}:VoipVersionId", w.where(w.fn(ff[0])),
+              ok_msg=f"written as integers: {sorted(as_int)}; string table: {table}",
+              bad_msg=f"the string table of VoipVersionId maps {clash} although {sorted(as_int)} are written as JSON integers (integer variants found: {bool(as_int)}): a call event with "
+                      f"`\"version\": \"0\"` is re-serialized with `\"version\": 0`")
+
+
 def custom_msgtype_rule(ctx, w):
     """An unknown `msgtype` is kept as MessageType::_Custom, whose payload collects EVERY other key of the JSON object it is parsed from in a
     flattened map. RoomMessageEventContent (and ..WithoutRelation) parse the message type from the whole content object and serialize
@@ -368,10 +396,8 @@ def no_borrowed_str_rule(ctx, w, rule, floor=1200):
 
 
 
-def run(ctx):
-    thorough = ctx.tier == "thorough"
-    fx = ctx.facts("A")
-    w = W.World(fx, ["ruma_events", "ruma_common"])
+def dispatch_rule(ctx, w, rule):
+    """Every arm of the generated Any*Event deserializers (literal or wildcard prefix) agrees with the event type enum's own string table."""
     types = {k[1:k.index(" as ")]: v["v"] for k, v in w.values.items() if k.endswith("StaticEventContent>::TYPE")}
     ctx.floor("content types with a TYPE constant", len(types), 100)
     enums = S.discover(w)
@@ -382,7 +408,7 @@ def run(ctx):
             Fe, Fp, fb, G, pr = S.tables(w, e, d)
             tables[e.rsplit("::", 1)[-1]] = (Fe, Fp, G)
 
-    ctx.rule("C18.dispatch", "every literal arm of the generated Any*Event deserializers parses the kind of the content type whose TYPE is that literal (or a declared alias of it) "
+    ctx.rule(rule, "every literal arm of the generated Any*Event deserializers parses the kind of the content type whose TYPE is that literal (or a declared alias of it) "
                              "and builds the variant of the same event type; unknown types fall back to _Custom")
     type_enum_of = {"AnyStateEvent": "StateEventType", "AnySyncStateEvent": "StateEventType", "AnyStrippedStateEvent": "StateEventType", "AnyInitialStateEvent": "StateEventType",
                     "AnyMessageLikeEvent": "MessageLikeEventType", "AnySyncMessageLikeEvent": "MessageLikeEventType", "AnyEphemeralRoomEvent": "EphemeralRoomEventType",
@@ -392,7 +418,7 @@ def run(ctx):
     for any_enum, tenum in sorted(type_enum_of.items()):
         p = f"<{EV}enums::{any_enum} as serde_core::de::Deserialize<'de>>::deserialize"
         if p not in w.fn_index:
-            ctx.missing("C18.dispatch", f"C18.dispatch:{any_enum}", f"{p} not found")
+            ctx.missing(rule, f"{rule}:{any_enum}", f"{p} not found")
             continue
         fn = w.fn(p)
         arms = arms_of(fn)
@@ -401,32 +427,40 @@ def run(ctx):
         ctx.floor(f"{any_enum} literal arms", len(lit_arms), 1)
         for lit, ty, variant in arms:
             n_arms += 1
-            key = f"C18.dispatch:{any_enum}:{lit if isinstance(lit, str) else lit[1] + '*'}"
+            key = f"{rule}:{any_enum}:{lit if isinstance(lit, str) else lit[1] + '*'}"
             c = content_of(ty)
             if c is None or variant is None:
-                ctx.unrecognised("C18.dispatch", key, w.where(fn), f"could not read the arm (type {ty}, variant {variant})")
+                ctx.unrecognised(rule, key, w.where(fn), f"could not read the arm (type {ty}, variant {variant})")
                 continue
             tconst = type_const(types, c)
             if isinstance(lit, str):
                 same_type = tconst == lit or (tconst is not None and Fe.get(lit) is not None and Fe.get(lit) == Fe.get(tconst))
                 # the variant of the Any enum is named like the event type enum variant of the literal
                 tv = Fe.get(lit)
-                ctx.check(bool(same_type) and tv == variant, "C18.dispatch", key, w.where(fn),
+                ctx.check(bool(same_type) and tv == variant, rule, key, w.where(fn),
                           bad_msg=f"`{lit}` is parsed as {c} (TYPE = {tconst!r}) into variant {variant}; the event type enum maps `{lit}` to {tv}")
             else:
                 prefix = lit[1]
                 tv = [v for pfx, v in Fp if pfx == prefix]
                 ok = tconst is not None and (tconst.startswith(prefix) or tconst == prefix + "*") and tv == [variant]
-                ctx.check(ok, "C18.dispatch", key, w.where(fn), bad_msg=f"prefix `{prefix}` is parsed as {c} (TYPE = {tconst!r}) into {variant}; prefix arms of the type enum: {Fp}")
+                ctx.check(ok, rule, key, w.where(fn), bad_msg=f"prefix `{prefix}` is parsed as {c} (TYPE = {tconst!r}) into {variant}; prefix arms of the type enum: {Fp}")
         # fallback _Custom
         has_custom = any(st[0] == "=" and st[2][0] == "agg" and st[2][1].get("k") == "adt" and st[2][1].get("variant") == "_Custom" and st[2][1]["adt"].endswith(any_enum)
                          for b in fn["body"]["blocks"] for st in b["s"])
         # `.map(Self::_Custom)`: the constructor passed as a function value
         has_custom = has_custom or any(o.get("k") == "const" and (o.get("fn") or "").endswith(f"{any_enum}::_Custom")
                                        for _, c in M.calls(fn["body"]) for o in c["args"])
-        ctx.check(has_custom, "C18.dispatch", f"C18.dispatch:{any_enum}:fallback", w.where(fn), bad_msg="unknown event types are not turned into the _Custom variant")
+        ctx.check(has_custom, rule, f"{rule}:{any_enum}:fallback", w.where(fn), bad_msg="unknown event types are not turned into the _Custom variant")
     ctx.count("dispatch_arms", n_arms)
     ctx.floor("dispatch arms", n_arms, 150)
+
+
+
+def run(ctx):
+    thorough = ctx.tier == "thorough"
+    fx = ctx.facts("A")
+    w = W.World(fx, ["ruma_events", "ruma_common"])
+    dispatch_rule(ctx, w, "C18.dispatch")
 
     # ---- redaction detection ---------------------------------------------------------------------------------
     ctx.rule("C18.redacted", "kind-level Deserialize (MessageLikeEvent, StateEvent, their Sync forms): Redacted iff unsigned.redacted_because is present")
@@ -530,6 +564,7 @@ def run(ctx):
     unique_keys_rule(ctx, w)
     custom_msgtype_rule(ctx, w)
     string_dispatch_rule(ctx, w, "C18.string-dispatch")
+    wire_kind_rule(ctx, w, "C18.wire-kind")
     # the two hand-written deserializers of m.room.redaction (full / sync) must accept the same events: both `redacts` locations are valid
     from . import C17 as _C17
     _C17.redacts_fallback_rule(ctx, w, "C18.redaction-siblings")
